@@ -357,8 +357,26 @@ def _forced_tree(rng, w, num):
 
 
 # ------------------------------------------------------------------------------------------------------------- the check
+def _limit_repeats(ctx, per_mech=2):
+    """Record at most ``per_mech`` witnesses per (monitor, mechanism) and shard, so that frequent known mechanisms cannot
+    exhaust the bus' witness buffer and hide a new one (all occurrences are still counted)."""
+    orig, seen = ctx.violation, {}
+
+    def violation(monitor, message, case=None, mech=None, observed=None, expected=None):
+        k = (monitor, mech)
+        seen[k] = seen.get(k, 0) + 1
+        if seen[k] <= per_mech:
+            orig(monitor, message, case=case, mech=mech, observed=observed, expected=expected)
+        else:
+            ctx.nviolations += 1
+            ctx.count("witnesses_not_recorded_again")
+    ctx.violation = violation
+
+
 def run(ctx):
     import pennylane as qp
+
+    _limit_repeats(ctx)
 
     from pv.gen import num, opzoo
     from pv.ref import sv
